@@ -40,7 +40,8 @@ def check_qp_agg(ctx: Ctx, name, cls, J, Jt, dtype, s2, pref, reg_eps, norm_eps,
     w = tensor_to_fr(A.weighting(Jt))
     l1 = sum(abs(v) for v in w)
     uu = Fr(ulp(dtype))
-    allow = [Fr(reg_eps) * s2 * max(wi, 0) + C_FLOAT * m * uu * s2 * l1 for wi in w]
+    # + quadprog's own feasibility tolerance (a kernel): (G w)_i >= -1e-8 |w|_1 on the normalised Gramian
+    allow = [Fr(reg_eps) * s2 * max(wi, 0) + (C_FLOAT * m * uu + Fr(1, 10 ** 8)) * s2 * l1 for wi in w]
     sl = slack(ctx, J, xs, allow)
     ctx.cov["min_slack_ratio_qp"] = min(ctx.cov.get("min_slack_ratio_qp", 1e9),
                                         min(float(s / (a if a > 0 else 1)) for s, a in zip(sl, allow)) if allow else 1e9)
